@@ -3,6 +3,7 @@ package c13
 import (
 	"encoding/json"
 	"fmt"
+	"strconv"
 	"strings"
 	"testing"
 
@@ -127,6 +128,13 @@ func TestC13(t *testing.T) {
 			t.Fatal(err)
 		}
 		rec.Eval()
+		if strings.HasPrefix(c.Note, "upvalues:") {
+			k, _ := strconv.Atoi(strings.TrimPrefix(c.Note, "upvalues:"))
+			if msg := checkUpvalues(k); msg != "" {
+				rec.Violation("upvalues", c, msg)
+			}
+			return
+		}
 		if strings.HasPrefix(c.Note, "size:") {
 			if msg := checkSize(c); msg != "" {
 				rec.Violation("size", c, msg)
@@ -163,6 +171,22 @@ func TestC13(t *testing.T) {
 				rec.Violation("size", c, fmt.Sprintf("%s with n=%d: %s\n--- chunk ---\n%s", tpl.name, n, msg, clipSrc(tpl.gen(n))))
 				return
 			}
+		}
+	}
+
+	// reloaded functions with upvalues: fresh, nil-initialised, pairwise distinct
+	for _, k := range []int{1, 2, 3, 4, 5, 8, 16, 50, 100, 200} {
+		idx++
+		if !rec.Mine(idx) {
+			continue
+		}
+		rec.Eval()
+		rec.Class("upvalues-of-reloaded-function")
+		rec.NonTrivial(fmt.Sprint("upvalues:", k))
+		if msg := checkUpvalues(k); msg != "" {
+			src, _ := upvalueCase(k)
+			rec.Violation("upvalues", progcheck.Case{Note: fmt.Sprintf("upvalues:%d", k)}, msg+"\n--- chunk ---\n"+clipSrc(src))
+			return
 		}
 	}
 
